@@ -14,6 +14,7 @@ func main() {
 		{Name: "blas-wrap-struct", Gen: genBlasWrapStruct},
 		{Name: "lapack64", Gen: genLapack64},
 		{Name: "lapack", Gen: genLapack},
+		{Name: "lapack-blocked", Gen: genLapackBlocked},
 		{Name: "mat-index", Gen: genMatIndex},
 		{Name: "mat-views", Gen: genMatViews},
 		{Name: "mat-ctor", Gen: genMatCtor},
